@@ -18,8 +18,12 @@ VARIANTS = [
     V("axis-zero-always", A, "        dim_index: int = array.get_axis_num(dim)  # type: ignore", "        dim_index: int = 0", "R16.3"),
     V("arange-stop-plus-step", D, "        start=start,\n        stop=stop,\n        step=step,\n        dtype=dtype,\n    )\n\n    # NOTE", "        start=start,\n        stop=stop + step,\n        step=step,\n        dtype=dtype,\n    )\n\n    # NOTE", "R16.1"),
     V("dim-range-first-last-swapped", D, "    return index.min(), index.max()", "    return index.max(), index.min()", "R16.2"),
+    V("trim-threshold-1e-4-step", "src/soundevent/arrays/dimensions.py", "    if coords[-1] >= stop - step / 2:", "    if stop - coords[-1] < 1e-4 * step:", "R16.1"),
+    V("trim-only-at-or-above-stop", "src/soundevent/arrays/dimensions.py", "    if coords[-1] >= stop - step / 2:", "    if coords[-1] >= stop:", "R16.1"),
+    V("trim-threshold-whole-step", "src/soundevent/arrays/dimensions.py", "    if coords[-1] >= stop - step / 2:", "    if coords[-1] >= stop - step:", "R16.1"),
     # neutral
     V("N-keyword-order", D, "        start=low_freq,\n        stop=high_freq,\n        step=step,", "        step=step,\n        stop=high_freq,\n        start=low_freq,", None),
     V("N-range-test-not-between", D, "    if value < start or value > stop:", "    if not (start <= value <= stop):", None),
     V("N-rename-index", D, "    index = arr.indexes[dim].get_slice_bound(value, \"right\")\n    return index - 1", "    bound = arr.indexes[dim].get_slice_bound(value, \"right\")\n    return bound - 1", None),
+    V("N-trim-strict-half-step", "src/soundevent/arrays/dimensions.py", "    if coords[-1] >= stop - step / 2:", "    if coords[-1] > stop - 0.5 * step:", None),
 ]
